@@ -1350,23 +1350,7 @@ func init() {
 			r.Check(exitOK, "Undo:chain-ends-at-InvalidLSN", "the chain walk ends when the LSN is InvalidLSN (and only then)", "no test of the loop variable against InvalidLSN")
 			// no other exit from the inner loop: from the loop header, a path to the outer loop's Next without the exit test … the only
 			// exits of the inner loop are the header's test (break/return statements inside would be additional exits)
-			hdr := lsnPhi.Block()
-			exits := 0
-			for _, b := range undo.Blocks {
-				if !hdr.Dominates(b) || b == hdr {
-					continue
-				}
-				if !reachesBlock(b, hdr) {
-					continue // not in the loop
-				}
-				for _, s := range b.Succs {
-					if !reachesBlock(s, hdr) && len(s.Instrs) > 0 {
-						if _, isPanic := s.Instrs[len(s.Instrs)-1].(*ssa.Panic); !isPanic {
-							exits++
-						}
-					}
-				}
-			}
+			exits, _ := loopExtraExits(lsnPhi.Block())
 			r.Check(exits == 0, "Undo:chain-walk-has-no-early-exit", "the chain walk cannot be left before InvalidLSN (no break / return inside it)", fmt.Sprintf("%d edges leave the inner loop from its body", exits))
 		}
 	})
